@@ -709,6 +709,238 @@ def _pinned_table_v2(chk, sp) -> None:
     chk.expect(len(app) == 1, "torsion-wrapper", ta.where, "atoms are collected in the order of the definition", "atom coordinates are not appended in definition order", K(ta, "backbone-order"))
 
 
+# ---------------------------------------------------------------------------------------------------------------------
+# inter-stem torsion (tertiary.Mapping2D3D.calculate_inter_stem_parameters)
+# ---------------------------------------------------------------------------------------------------------------------
+class _Pt:
+    """A centroid: a point that remembers which base pair of which stem it is (differences remember their operands)."""
+
+    _folder_stub = True
+
+    def __init__(self, tag: str, xyz: Sequence[float]):
+        self.tag, self.xyz = tag, tuple(float(v) for v in xyz)
+
+    def __sub__(self, o):
+        return _Pt(f"({self.tag} - {getattr(o, 'tag', o)})", [a - b for a, b in zip(self.xyz, _xyz(o))])
+
+    def __add__(self, o):
+        return _Pt(f"({self.tag} + {getattr(o, 'tag', o)})", [a + b for a, b in zip(self.xyz, _xyz(o))])
+
+    def __mul__(self, k):
+        if isinstance(k, _Pt):
+            return _Pt(f"({self.tag} * {k.tag})", [a * b for a, b in zip(self.xyz, k.xyz)])
+        return _Pt(f"({self.tag} * {k})", [a * k for a in self.xyz])
+
+    __rmul__ = __mul__
+
+    def __pow__(self, k):
+        return _Pt(f"({self.tag} ** {k})", [a**k for a in self.xyz])
+
+    def __neg__(self):
+        return _Pt(f"-{self.tag}", [-a for a in self.xyz])
+
+    def __iter__(self):
+        return iter(self.xyz)
+
+    def __len__(self):
+        return 3
+
+    def __getitem__(self, i):
+        return self.xyz[i]
+
+    def __repr__(self):
+        return self.tag
+
+
+def _xyz(o) -> Tuple[float, ...]:
+    return o.xyz if isinstance(o, _Pt) else tuple(o)
+
+
+class Rad(float):
+    """Outcome of a degrees -> radians conversion (remembers its input)."""
+
+    def __new__(cls, d):
+        o = float.__new__(cls, math.radians(d))
+        o.of = d
+        return o
+
+
+class Deg(float):
+    """Outcome of a radians -> degrees conversion (remembers its input)."""
+
+    def __new__(cls, r):
+        o = float.__new__(cls, math.degrees(r))
+        o.of = r
+        return o
+
+
+def _geom_np() -> Stub:
+    norm_ = lambda v, *a: math.sqrt(sum(c * c for c in _xyz(v)))
+    np_ = _np_stub()
+    np_.__dict__.update(
+        linalg=Stub("numpy.linalg", norm=norm_),
+        dot=lambda a, b: sum(x * y for x, y in zip(_xyz(a), _xyz(b))),
+        sum=lambda v, *a: sum(_xyz(v)),
+        sqrt=math.sqrt,
+        array=lambda v, *a: v if isinstance(v, _Pt) else _Pt("array", v),
+        asarray=lambda v, *a: v if isinstance(v, _Pt) else _Pt("array", v),
+        degrees=Deg,
+        rad2deg=Deg,
+        radians=Rad,
+        deg2rad=Rad,
+    )
+    return np_
+
+
+def _math_stub() -> Stub:
+    return Stub("math", radians=Rad, degrees=Deg, pi=math.pi, tau=math.tau, inf=math.inf, nan=math.nan, e=math.e, sqrt=math.sqrt, exp=math.exp, log=math.log, cos=math.cos, sin=math.sin, fabs=math.fabs, isnan=math.isnan, isclose=math.isclose, dist=lambda a, b: math.dist(_xyz(a), _xyz(b)))
+
+
+class _VonMises:
+    _folder_stub = True
+
+    def __init__(self, kappa, loc):
+        self.kappa, self.loc, self.asked = kappa, loc, []
+
+    def pdf(self, x):
+        self.asked.append(x)
+        return 0.5 if float(x) == float(self.loc) else 0.2
+
+
+_END = {"first": "5", "last": "3"}
+
+
+def _stem_layout(n1: int, n2: int, e1: str, e2: str) -> Tuple[List[_Pt], List[_Pt]]:
+    """Two stems of n1 / n2 base-pair centroids; the closest pair of stem ends is (e1 of stem 1, e2 of stem 2), strictly."""
+    s1 = [(3.0 * k, 0.0, 0.0) for k in range(n1)]
+    a = s1[0] if e1 == "first" else s1[-1]
+    line = [(a[0] + 0.4 + 0.3 * k, 2.0 + 3.0 * k, 0.5 + 1.0 * k) for k in range(n2)]  # k = 0 is the end next to `a`
+    s2 = line if e2 == "first" else line[::-1]
+    if n1 >= 2 and n2 >= 2:
+        d = {(x, y): math.dist(s1[0 if x == "first" else -1], s2[0 if y == "first" else -1]) for x in _END for y in _END}
+        if sorted(d, key=d.get)[0] != (e1, e2) or sorted(d.values())[1] - sorted(d.values())[0] < 0.5:
+            raise Unknown("stub layout of the stems does not single out the intended pair of ends")
+    return [_Pt(f"stem1[{k}]", p) for k, p in enumerate(s1)], [_Pt(f"stem2[{k}]", p) for k, p in enumerate(s2)]
+
+
+def check_interstem(chk) -> bool:
+    """The inter-stem torsion is the dihedral about the junction of the two stems: the four points handed to the torsion function
+    are (neighbour of end 1 in stem 1, end 1, end 2, neighbour of end 2 in stem 2) for the pair of stem ends (end 1, end 2) that
+    realises the minimum distance, the arrangement is reported under the name of that pair, the value is scored in radians and
+    reported in degrees.  Decided by evaluating the method on stub stems (4 closest-end cases x 3 pairs of stem lengths).
+    False when the method is not evaluable (the caller reads the pinned form)."""
+    repo = chk.repo
+    ci = repo.func(T1, "Mapping2D3D.calculate_inter_stem_parameters")
+    chk.note_function(ci)
+    wrong_pts: Dict[str, str] = {}
+    wrong_type: Dict[str, str] = {}
+    wrong_units: Dict[str, str] = {}
+    n_cases = 0
+    try:
+        for n1, n2 in ((2, 2), (3, 4), (4, 2), (1, 3), (3, 1)):
+            for e1 in _END:
+                for e2 in _END:
+                    c1, c2 = _stem_layout(n1, n2, e1, e2)
+                    stems = {"stem 1": c1, "stem 2": c2}
+                    made: List[_VonMises] = []
+
+                    def vonmises(*a, **k):
+                        vm = _VonMises(k.get("kappa", a[0] if a else None), k.get("loc", a[1] if len(a) > 1 else 0.0))
+                        made.append(vm)
+                        return vm
+
+                    vonmises._folder_keywords = True
+                    glob = {"calculate_torsion_angle_coords": _tor_stub, "torsion_angle": _tor_stub, "numpy": _geom_np(), "np": _geom_np(), "math": _math_stub(), "vonmises": vonmises, "distance_pdf": (lambda d, *a: 0.75)}
+                    me = ClassStub(repo, T1, "Mapping2D3D", {"get_stem_coordinates": (lambda st: list(stems[st]))}, glob, label="mapping")
+                    try:
+                        got = me.calculate_inter_stem_parameters("stem 1", "stem 2")
+                    except _STUB_LIMITS as ex:
+                        raise Unknown(f"{type(ex).__name__}: {ex}")
+                    n_cases += 1
+                    case = f"stems of {n1} and {n2} base pairs whose closest ends are the {e1} pair of stem 1 and the {e2} pair of stem 2"
+                    if n1 < 2 or n2 < 2:
+                        if got is not None:
+                            wrong_pts[case] = f"a result ({_short(got)}) although a stem with one base pair has no direction"
+                        continue
+                    if not isinstance(got, dict):
+                        raise Unknown(f"the method returns {got!r} for two stems of {n1} and {n2} base pairs")
+                    tors = [v for v in got.values() if isinstance(v, (Deg, Rad)) and isinstance(v.of, Tor)] + [v for v in got.values() if isinstance(v, Tor)]
+                    asked = [x for vm in made for x in vm.asked if isinstance(x, (Tor, Deg, Rad)) and (isinstance(x, Tor) or isinstance(x.of, Tor))]
+                    tor = next((t if isinstance(t, Tor) else t.of for t in tors + asked), None)
+                    if tor is None:
+                        raise Unknown("no value of the torsion function reaches the result")
+                    i1, i2 = (0, 1) if e1 == "first" else (n1 - 1, n1 - 2)
+                    j1, j2 = (0, 1) if e2 == "first" else (n2 - 1, n2 - 2)
+                    want = (f"stem1[{i2}]", f"stem1[{i1}]", f"stem2[{j1}]", f"stem2[{j2}]")
+                    if tuple(tor.quad) != want:
+                        q = list(tor.quad)
+                        why = f" - the central bond of the dihedral is {q[1]}-{q[2]}, not the closest pair of ends {want[1]}-{want[2]}" if len(q) == 4 and tuple(q[1:3]) != want[1:3] else ""
+                        wrong_pts[case] = f"{q} instead of {list(want)}{why}"
+                    name = "cs" + _END[e1] + _END[e2]
+                    if got.get("type") != name:
+                        wrong_type[case] = f"{got.get('type')!r} instead of {name!r}"
+                    out = got.get("torsion_angle")
+                    if not (isinstance(out, Deg) and isinstance(out.of, Tor)):
+                        wrong_units[case] = f"'torsion_angle' is {_unit_text(out)}, expected the value of the torsion function converted to degrees"
+                    for vm in made:
+                        bad = [x for x in vm.asked if isinstance(x, (Deg, Rad)) and isinstance(x.of, Tor)]
+                        if bad:
+                            wrong_units[case] = f"the von Mises density (a function of an angle in radians) is evaluated at {_unit_text(bad[0])}"
+                        elif any(isinstance(x, Tor) for x in vm.asked) and not isinstance(vm.loc, Rad):
+                            wrong_units[case] = f"the von Mises density is centred at {_unit_text(vm.loc)}, expected a mean converted from degrees to radians"
+                    if not any(isinstance(x, Tor) for vm in made for x in vm.asked) and not wrong_units.get(case):
+                        raise Unknown("the torsion value is not scored by a von Mises density the rule can follow")
+    except Unknown as ex:
+        chk.ok("chi-eval", ci.where, f"calculate_inter_stem_parameters is not evaluable on stub stems ({str(ex)[:120]}): the pinned-form reading decides")
+        return False
+    except Exception as ex:
+        chk.violation("interstem-points", ci.where, f"calculate_inter_stem_parameters raises {type(ex).__name__} ({ex}) on two stub stems", K(ci, "points-raises"))
+        return True
+    chk.expect(
+        not wrong_pts,
+        "interstem-points",
+        ci.where,
+        f"the inter-stem torsion is computed over (neighbour of end 1, end 1, end 2, neighbour of end 2) where (end 1, end 2) is the closest pair of stem ends: the central bond of the dihedral is the junction ({n_cases} cases: which ends are closest x stem lengths; a stem of one base pair gives no value)",
+        "the four points of the inter-stem torsion are not (neighbour, end, end, neighbour) about the closest pair of stem ends: " + "; ".join(f"{k}: {v}" for k, v in list(wrong_pts.items())[:2]),
+        K(ci, "points"),
+        expected="(stem1[neighbour of end 1], stem1[end 1], stem2[end 2], stem2[neighbour of end 2])",
+        found=dict(list(wrong_pts.items())[:4]),
+    )
+    chk.expect(
+        not wrong_type,
+        "interstem-points",
+        ci.where,
+        "the arrangement is reported as cs<end of stem 1><end of stem 2> (5 = first base pair, 3 = last) of the closest pair of ends",
+        "the reported arrangement does not name the closest pair of stem ends: " + "; ".join(f"{k}: {v}" for k, v in list(wrong_type.items())[:2]),
+        K(ci, "type"),
+        found=dict(list(wrong_type.items())[:4]),
+    )
+    chk.expect(
+        not wrong_units,
+        "interstem-units",
+        ci.where,
+        "inter-stem torsion: the value of the torsion function (radians) is scored by a von Mises density whose mean was converted to radians, and reported in degrees (evaluated)",
+        "inter-stem torsion units: " + "; ".join(f"{k}: {v}" for k, v in list(wrong_units.items())[:2]),
+        K(ci, "units"),
+        found=dict(list(wrong_units.items())[:4]),
+    )
+    return True
+
+
+def _unit_text(v: Any) -> str:
+    if isinstance(v, Deg):
+        return f"degrees({_unit_text(v.of)})"
+    if isinstance(v, Rad):
+        return f"radians({_unit_text(v.of)})"
+    if isinstance(v, Tor):
+        return "the torsion value (radians)"
+    return f"the plain number {v!r}" if isinstance(v, (int, float)) else repr(v)[:40]
+
+
+def _short(v: Any) -> str:
+    return repr(v)[:60]
+
+
 def check_chi(chk) -> None:
     """chi in both implementations + the torsion table of tertiary_v2 + agreement of the two."""
     sp = spec("iupac_torsions.json")
